@@ -262,7 +262,10 @@ def wl_syntax(ctx, rng, case_no):
             if not interior:
                 while sel and not sel[-1][1].strip():
                     sel.pop()
-                while got and not "".join(got[-1][2]).strip():
+                # (under indent_guides a line of white space shows guide glyphs: it is still a blank line of the source)
+                def _blank(pieces):
+                    return not "".join(unguide(p) if opts["indent_guides"] else p for p in pieces).strip()
+                while got and _blank(got[-1][2]):
                     got.pop()
             else:
                 ctx.count("mon.syntax_range_interior")
